@@ -23,6 +23,7 @@ RULE = ("(1) all command sequences up to length 3 (quick) / 4 (thorough) over 11
         "master and slave, all 256 heartbeat bytes, boot-ups; (3) waits with an instrumented condition. Signature = (workload, "
         "sequence of command classes / op kinds); exhaustive part counted per distinct sequence.")
 RULE += (" " + 'Widened later: a device that answers resets with its boot-up at once (inline), node guarding switched on, boot-up bytes 0x00/0x80 in waits, slow application callbacks, several waiters, wait_for_bootup on a node that keeps sending ordinary heartbeats (logical-step oracle), waiters that re-park after their matching message.')
+RULE += (" " + "Widened later: the slave's interface offers each of the four kinds of cyclic tasks in turn (modifiable, modifiable by copy, fixed frame, restartable).")
 ASSUMPTIONS = ["a network does not receive its own frames (python-can semantics), so each view has its own model",
                "SLEEP (80) and STANDBY (96) are the library's documented extra commands",
                "'fails when none arrives' is judged with a 30 ms time-out (watchdog => inconclusive)"]
